@@ -62,4 +62,54 @@ theorem C16_torn_read_counterexample_later : checkTorn 1024 6144 4097 4096 6144 
 example : checkTorn 1024 4096 0 0 0 0 0 = false ∧ checkTorn 1024 4096 0 4096 4096 4096 4096 = false ∧
           checkTorn 1024 6144 4097 4096 4096 4096 4096 = false ∧ checkTorn 1024 6144 4097 6144 6144 6144 6144 = false := by decide
 
+/-! ### the two stamps under interleaving: test-then-assign in one thread, the other thread's whole step in between -/
+
+/-- the two keepalive stamps (shared, unlocked) -/
+structure Stamps where
+  lastPing : Nat
+  lastPong : Nat
+  deriving DecidableEq, Repr
+
+/-- `_send_ping`: `if self.last_pong_tm >= self.last_ping_tm: self.last_ping_tm = now` (generated fact `appPingStampWhenAnswered`) -/
+def pingStep (now : Nat) (s : Stamps) : Stamps := if s.lastPong ≥ s.lastPing then { s with lastPing := now } else s
+
+/-- `read()` at a pong: `if self.last_pong_tm < self.last_ping_tm: self.last_pong_tm = now` (`appPongStampWhenOutstanding`) -/
+def pongStep (now : Nat) (s : Stamps) : Stamps := if s.lastPong < s.lastPing then { s with lastPong := now } else s
+
+/-- the ping thread preempted between its test and its assignment; the loop thread's whole pong step runs in between -/
+def pingTorn (now other : Nat) (s : Stamps) : Stamps :=
+  let t := decide (s.lastPong ≥ s.lastPing)
+  let s' := pongStep other s
+  if t then { s' with lastPing := now } else s'
+
+/-- the loop thread preempted between its test and its assignment; the ping thread's whole step runs in between -/
+def pongTorn (now other : Nat) (s : Stamps) : Stamps :=
+  let t := decide (s.lastPong < s.lastPing)
+  let s' := pingStep other s
+  if t then { s' with lastPong := now } else s'
+
+/-- **C16_stamps_linearizable** — the two guarded stamps (F12's repair) are written under complementary conditions, so
+    tearing either thread's test-then-assign around the other thread's step changes nothing: the result is the result of
+    one of the two atomic orders.  (This is why `run_check_race` finds nothing at the lines of the pong stamping, and why
+    the atomic-step models are faithful there; the torn READS of `check()` were another matter: F19.) -/
+theorem C16_stamps_linearizable (now other : Nat) (s : Stamps) :
+    (pingTorn now other s = pongStep other (pingStep now s) ∨ pingTorn now other s = pingStep now (pongStep other s)) ∧
+    (pongTorn now other s = pingStep other (pongStep now s) ∨ pongTorn now other s = pongStep now (pingStep other s)) := by
+  constructor
+  · by_cases h : s.lastPong ≥ s.lastPing
+    · right
+      have h' : ¬ s.lastPong < s.lastPing := by omega
+      simp [pingTorn, pongStep, pingStep, h, h']
+    · left
+      simp [pingTorn, pongStep, pingStep, h]
+  · by_cases h : s.lastPong < s.lastPing
+    · right
+      have h' : ¬ s.lastPong ≥ s.lastPing := by omega
+      simp [pongTorn, pongStep, pingStep, h, h']
+    · left
+      simp [pongTorn, pongStep, pingStep, h]
+
+/-- the step functions are the ones of the source (generated facts) -/
+theorem stamp_steps_in_source : Gen.appPingStampWhenAnswered = true ∧ Gen.appPongStampWhenOutstanding = true := by decide
+
 end WS.Props.C16c
